@@ -28,12 +28,8 @@ import (
 	"sync/atomic"
 	"time"
 
-	"github.com/golang/snappy"
-	"github.com/metrico/qryn/writer/utils/proto/prompb"
-	"google.golang.org/protobuf/proto"
 
 	"qrynverif/evid"
-	"qrynverif/fakech"
 	"qrynverif/inssvc"
 )
 
@@ -46,7 +42,7 @@ const (
 var probeSeq atomic.Int64
 
 func (c reqCase) wire() wireReq {
-	rq := wireReq{Method: c.Method, Target: string(c.Target), Body: c.Body}
+	rq := wireReq{Method: c.Method, Target: string(c.Target), Body: c.wireBody()}
 	for _, h := range c.Header {
 		rq.Header = append(rq.Header, [2]string{string(h[0]), string(h[1])})
 	}
@@ -85,7 +81,7 @@ func (c reqCase) cfg() inssvc.Config {
 // 404/405/301, not net/http's own 400, not "Content-Type not supported", and the request
 // was not turned away by the middleware in front of the decoder (unsupported or broken
 // Content-Encoding, invalid precision, missing profile parameters).
-func reachedDecoder(c reqCase, resp wireResp) (bool, string) {
+func reachedDecoder(c reqCase, wireBody []byte, resp wireResp) (bool, string) {
 	switch resp.Status {
 	case 404, 405, 301, 308:
 		return false, "router"
@@ -105,7 +101,7 @@ func reachedDecoder(c reqCase, resp wireResp) (bool, string) {
 		return false, "precision"
 	}
 	if c.header("Content-Encoding") == "gzip" {
-		if _, err := gzip.NewReader(bytes.NewReader(c.Body)); err != nil {
+		if _, err := gzip.NewReader(bytes.NewReader(wireBody)); err != nil {
 			return false, "gzip-header"
 		}
 	}
@@ -120,63 +116,6 @@ func reachedDecoder(c reqCase, resp wireResp) (bool, string) {
 		}
 	}
 	return true, ""
-}
-
-// ---- regions of findings owned by other properties -------------------------------------------
-
-func decodedBody(c reqCase, limit int64) []byte {
-	var r io.Reader = bytes.NewReader(c.Body)
-	switch c.header("Content-Encoding") {
-	case "gzip":
-		zr, err := gzip.NewReader(r)
-		if err != nil {
-			return nil
-		}
-		r = zr
-	case "snappy":
-		r = snappy.NewReader(r)
-	}
-	b, _ := io.ReadAll(io.LimitReader(r, limit))
-	return b
-}
-
-// foreignKnown names the recorded finding of another property that explains a malformed
-// block, or "".
-func foreignKnown(c reqCase, bad *fakech.Call) string {
-	switch {
-	case strings.HasPrefix(c.Route, "prom-") && bad.Table == "samples_v3":
-		// C03-rw-type-array-at-flush (fix 958c395 on fix/c03): the remote-write decoder hands
-		// len(all samples of the series) types to the 1000-point flush
-		b := decodedBody(c, 64<<20)
-		if u, err := snappy.Decode(nil, b); err == nil { // withUnsnappyRequest falls back to the raw body
-			b = u
-		}
-		var wr prompb.WriteRequest
-		if proto.Unmarshal(b, &wr) != nil {
-			return ""
-		}
-		n := 0
-		for _, ts := range wr.GetTimeseries() {
-			n += len(ts.GetSamples())
-		}
-		if n >= 1000 {
-			return "C03-rw-type-array-at-flush"
-		}
-	case c.Route == "ingest" && bad.Table == "profiles_input":
-		// DESIGN.md section 4 item 7 (fix 5fc50bc on fix/c06): a profile whose accounted size
-		// (label strings of name + sample type strings) exceeds 1 MiB is answered with a spans
-		// response and its empty remainder appends to the array columns only
-		b := decodedBody(c, 64<<20)
-		n := len(b)
-		if zr, err := gzip.NewReader(bytes.NewReader(b)); err == nil {
-			m, _ := io.Copy(io.Discard, io.LimitReader(zr, 64<<20))
-			n = int(m)
-		}
-		if len(c.Target)+n > 1<<20 {
-			return "C06-profile-over-1mib"
-		}
-	}
-	return ""
 }
 
 // ---- probe ----------------------------------------------------------------------------------
@@ -348,7 +287,11 @@ func statusClass(s int) string {
 }
 
 func describe(c reqCase) string {
-	return fmt.Sprintf("%s %s (route %s, body %s %d bytes, %s, %s)", c.Method, trimTo(string(c.Target), 200), c.Route, c.Family, len(c.Body), strings.Join(c.Muts, "+"), c.Enc)
+	n := len(c.Body)
+	if c.Fill != nil {
+		n = len(c.wireBody())
+	}
+	return fmt.Sprintf("%s %s (route %s, body %s %d bytes, %s, %s)", c.Method, trimTo(string(c.Target), 200), c.Route, c.Family, n, strings.Join(c.Muts, "+"), c.Enc)
 }
 
 func predReq(c reqCase, o *evid.Obs) error {
@@ -368,7 +311,28 @@ func predReq(c reqCase, o *evid.Obs) error {
 	tainted := true
 	defer func() { release(st, tainted) }()
 
-	resp := send(st.addr, c.wire(), respDeadline)
+	rq := c.wire()
+	if len(rq.Body) > 64<<10 {
+		o.Tag("body:over-64k")
+	}
+	if len(rq.Body) > 1<<20 {
+		o.Tag("body:over-1m")
+	}
+	aborted := ""
+	if c.Client != nil && c.Client.Mode != "" {
+		// first the client that gives up: no response is expected; what it leaves behind is
+		// judged below, together with the complete request (goroutines, batch, probe)
+		aborted = " [first sent by an aborting client, " + c.Client.Mode + ": " + sendAborting(st.addr, rq, *c.Client) + "]"
+		o.Tag("abort:" + c.Client.Mode)
+		if c.Client.Reset {
+			o.Tag("abort-close:rst")
+		}
+	} else {
+		o.Tag("abort:none")
+	}
+	describe := func(c reqCase) string { return describe(c) + aborted }
+
+	resp := send(st.addr, rq, respDeadline)
 	if resp.Err != nil {
 		if resp.Timeout {
 			alive := st.extra()
@@ -385,7 +349,7 @@ func predReq(c reqCase, o *evid.Obs) error {
 			st.wedged = true
 			st.close()
 			st = acquire(c.cfg(), true)
-			again := send(st.addr, c.wire(), respDeadline)
+			again := send(st.addr, rq, respDeadline)
 			if !again.Timeout || len(st.settle(graceBound)) == 0 {
 				o.Discard("deadline miss did not reproduce")
 				return nil
@@ -398,12 +362,12 @@ func predReq(c reqCase, o *evid.Obs) error {
 			o.Tag("outcome:handler-panic")
 			return fmt.Errorf("the handler goroutine panicked, the client got no HTTP response (%v): %s\n%s", resp.Err, describe(c), trimTo(lg, 3500))
 		}
-		again := send(st.addr, c.wire(), respDeadline)
+		again := send(st.addr, rq, respDeadline)
 		if again.Err == nil {
 			o.Discard("transport error did not reproduce")
 			return nil
 		}
-		if len(c.Body) > 128<<10 && !strings.Contains(st.log(), "panic serving") {
+		if len(rq.Body) > 128<<10 && !strings.Contains(st.log(), "panic serving") {
 			o.Discard("connection closed early on a large body")
 			return nil
 		}
@@ -411,10 +375,13 @@ func predReq(c reqCase, o *evid.Obs) error {
 		return fmt.Errorf("no HTTP response (%v, then %v): %s\nserver log: %s", resp.Err, again.Err, describe(c), trimTo(st.log(), 2000))
 	}
 	o.Tag(statusClass(resp.Status))
-	reached, why := reachedDecoder(c, resp)
+	reached, why := reachedDecoder(c, rq.Body, resp)
 	if reached {
 		o.NonTrivial()
 		o.Tag("reached-decoder")
+		if aborted != "" {
+			o.Tag("abort-reached-decoder:" + c.Client.Mode)
+		}
 	} else {
 		o.Tag("turned-away:" + why)
 	}
@@ -438,11 +405,6 @@ func predReq(c reqCase, o *evid.Obs) error {
 	for _, call := range st.calls() {
 		if call.RectErr == "" && call.ShapeErr == "" {
 			continue
-		}
-		if id := foreignKnown(c, call); id != "" && !o.Witness {
-			o.Known(id)
-			o.Tag("outcome:foreign-known")
-			return nil
 		}
 		o.Tag("outcome:malformed-block")
 		return fmt.Errorf("after %s (answered %d) the insert service sent a malformed INSERT block to %s: %s %s (all rows of the block, other clients' included, are lost)",
@@ -478,5 +440,5 @@ func predReq(c reqCase, o *evid.Obs) error {
 }
 
 func addRequest(r *evid.Run) {
-	evid.Add(r, evid.Prop[reqCase]{Name: "request", Quick: 3000, Thorough: 6000, Gen: genReq(r.Tier == "thorough"), Pred: predReq, WAL: true})
+	evid.Add(r, evid.Prop[reqCase]{Name: "request", Quick: 2000, Thorough: 5000, Gen: genReq(r.Tier == "thorough"), Pred: predReq, WAL: true})
 }
